@@ -665,9 +665,10 @@ def dmigAux : Nat → List (List Val) → Option (List DmigRead)
         | some d, some ds => some (d :: ds)
         | _, _ => none
 
-/-- `rddmig(f)` on punch text, form ≠ 9 column semantics included through `cols` -/
+/-- `rddmig(f)` on punch text, form ≠ 9 column semantics included through `cols`; a file without any DMIG card
+raises (`rdcards` returns None, `len(None)` is a TypeError): `none` -/
 def rdDmig (lines : List Txt) : Option (List DmigRead) :=
   let cards := rdcards (txt "dmig") lines
-  dmigAux (cards.length + 1) cards
+  if cards.isEmpty then none else dmigAux (cards.length + 1) cards
 
 end PyYetiVerif.Bulk
